@@ -504,7 +504,7 @@ func extraListeners(x *explore.X) {
 
 func TestC20(t *testing.T) {
 	s := explore.NewSuite(t, "C20", "model_checking",
-		"(read-limit, write-limit) in {0, 1 MiB/s, 64 MiB/s, 300 MiB/s, 16 KiB/s, 3000 B/s}^2 (the last two are smaller than one relay buffer / one bufio buffer) x transfer {download, upload, CONNECT tunnel both ways} of 12 MiB per connection (burst + 256 KiB with a limit below 1 MiB/s) x {1,2,3} connections sharing the listener x {no shutdown, graceful shutdown requested while the transfer is under way} x {no client-side time limits, read-timeout 2 s + write-timeout 3 s (bound only)} x (tunnels) {client keeps sending, client half-closes before the download} x sender writes {one piece, pieces of 1000 octets} x sockets {plain, offering ReadFrom/WriteTo like *net.TCPConn} [full product]; on the virtual clock the receiving side's (time, cumulative bytes) is sampled 64+ times per transfer (states = samples) and the token-bucket bound bytes <= burst + rate x dt + one 64 KiB write per connection is checked between EVERY pair of samples, plus minimum duration, zero virtual time for an unlimited direction, and byte-for-byte identity of the data; plus (limit-spellings) integer part(6) x fraction(11, incl. leading zeros) x suffix(14) of the option value through SizeSuffix.Set compared with exact rational arithmetic")
+		"(read-limit, write-limit) in {0, 1 MiB/s, 64 MiB/s, 300 MiB/s, 16 KiB/s, 3000 B/s}^2 (the last two are smaller than one relay buffer / one bufio buffer) x transfer {download, upload, CONNECT tunnel both ways} of 12 MiB per connection (burst + 256 KiB with a limit below 1 MiB/s) x {1,2,3} connections sharing the listener x {no shutdown, graceful shutdown requested while the transfer is under way} x {no client-side time limits, read-timeout 2 s + write-timeout 3 s (bound only)} x (tunnels) {client keeps sending, client half-closes before the download} x sender writes {one piece, pieces of 1000 octets} x sockets {plain, offering ReadFrom/WriteTo like *net.TCPConn} [full product]; on the virtual clock the receiving side's (time, cumulative bytes) is sampled 64+ times per transfer (states = samples) and the token-bucket bound bytes <= burst + rate x dt + one 64 KiB write per connection is checked between EVERY pair of samples, plus minimum duration, zero virtual time for an unlimited direction, and byte-for-byte identity of the data; plus (limit-spellings) integer part(6) x fraction(11, incl. leading zeros) x suffix(14) of the option value through SizeSuffix.Set compared with exact rational arithmetic; (extra-listeners, round 9) main listener limits {0, 1 MiB/s, 16 KiB/s}^2 x extra listener (HTTPProxyConfig.ExtraListeners) limits {0, 1 MiB/s, 16 KiB/s}^2 x {download, upload} x through {main, extra} [full product]: the transfer obeys the limits of the listener it came through and nothing else")
 	s.Assume = []string{"virtual clock of testing/synctest drives golang.org/x/time/rate", "documented slack: the limiter is charged after each write, so one write (<= 64 KiB) per connection may exceed the bucket", "simnet receive buffers are unbounded, so the only throttle is the limiter under test"}
 	s.Add(explore.Scenario{Name: "limit-spellings", Run: limitSpellings})
 	s.Add(explore.Scenario{Name: "extra-listeners", Remote: true, Run: func(x *explore.X) { world.Run(t, x, func() { extraListeners(x) }) }})
